@@ -211,7 +211,16 @@ def build_ops(tier: str, seed: int) -> Tuple[List[Dict[str, Any]], List[Tuple]]:
     grid = codecgen.grid_layers("quick", seed, per_layer=40)
     grid = r.sample(grid, min(len(grid), 10 if tier == "quick" else 40))
     comp = codeccompose.layers("quick", seed)[: (8 if tier == "quick" else 25)]
-    models = grid + comp + [odd_layer(), nrc_layer()]
+    # layers built for the attribution property: services that share prefixes, several negative
+    # and global negative responses per prefix (the places where decoding is a search)
+    from . import c06
+    r6 = random.Random(seed * 23 + 5)
+    specs = c06.gen_specs("quick", r6)
+    attrib = [c06.build_layer(900 + i, [(s, list(c)) for s, c in r6.choice(specs)], r6, [3, 1, 2, 0][i % 4])
+              for i in range(6 if tier == "quick" else 24)]
+    for a in attrib:
+        a["name"] = "attrib_" + a["name"]
+    models = grid + comp + [odd_layer(), nrc_layer()] + attrib
     ops: List[Tuple] = []
     for name, xml in load_documents():
         ops.append((-1, name, "load", xml))
@@ -228,6 +237,26 @@ def build_ops(tier: str, seed: int) -> Tuple[List[Dict[str, Any]], List[Tuple]]:
                     ops.append((li, rq["name"], "enc", {"x": v}))
                 for b in (b"\x2f\x41\x42", b"\x2f\x41\x42\x43\x44", b"\x2f\x01", b"\x2f"):
                     ops.append((li, rq["name"], "dec", b))
+            continue
+        if m["name"].startswith("attrib_"):
+            msgs = []
+            for rq in m["requests"]:
+                consts = bytes(p["value"] for p in rq["params"]
+                               if p["p"] == "CODED-CONST" and p["dct"]["bits"] == 8 and (p.get("bit") or 0) == 0)[:3]
+                for tail in (b"", b"\x01", b"\x01\x02\x03"):
+                    msgs.append(consts + tail)
+                if consts:
+                    msgs.append(bytes([(consts[0] + 0x40) & 0xFF]) + consts[1:] + b"\x05")
+                    for nrc in (0x11, 0x21, 0x31, 0x99):
+                        msgs.append(bytes([0x7F, consts[0], nrc]))
+                        msgs.append(bytes([0x7F, consts[0], nrc, 0x01]))
+            msgs = list(dict.fromkeys(msgs))[:40]
+            rq0 = msgs[0] if msgs else b"\x22"
+            for b in msgs:
+                ops.append((li, "", "layerdec", b))
+                ops.append((li, "", "layerresp", (b, rq0)))
+                for sv in m["services"][:4]:
+                    ops.append((li, sv["name"], "svcdec", b))
             continue
         if m["name"] == "nrcs":
             msgs = [bytes.fromhex(h) for h in (
@@ -365,7 +394,7 @@ def child_main(mode: str, tier: str, seed: int, out_path: str) -> None:
     r2 = random.Random(seed + 99)
     from . import c05
     for li, m in enumerate(models):
-        if m["name"] in ("oddities", "nrcs"):
+        if m["name"] in ("oddities", "nrcs") or m["name"].startswith("attrib_"):
             continue
         for rq in m["requests"][:: (2 if tier == "quick" else 1)]:
             vals = next((o[3] for o in ops if o[0] == li and o[1] == rq["name"]), None)
